@@ -140,6 +140,7 @@ def main():
     # 4b. standing search: the property's monitor (the statement evaluated on the real code, no model) also runs when
     #     nothing broke.  Model and code can agree on behaviour that no theorem constrains; the monitor is what sees a
     #     violation there.  It also keeps recorded (known, unrepaired) findings visible as KNOWN-FINDING lines.
+    search_crashed = False
     if not (broken or corr_broken):
         try:
             standing = getattr(mod, "standing_search", None) or (lambda c: mod.search(c, [], []))
@@ -150,6 +151,7 @@ def main():
         except Exception as e:
             traceback.print_exc()
             notes.append(f"standing search crashed: {type(e).__name__}: {e}")
+            search_crashed = True
 
     # 4c. a broken obligation or tie that the search did not explain with a NEW failing input stays a violation:
     #     inputs already recorded as known findings do not explain it
@@ -209,6 +211,10 @@ def main():
     common.write_json(common.OUT / "evidence" / f"{prop}.json", ev)
     print(f"{prop} tier={tier} seed={seed}: {discharged}/{obligations} obligations, "
           f"{ev['coverage']['evaluations']} correspondence cases, {n_viol} violations, {ev['wall_s']}s")
+    if search_crashed and not n_viol:
+        # the monitor that evaluates the property on the real code did not run to its end: that is a broken check, not a pass
+        print("HARNESS-ERROR the standing search crashed (see the traceback above)")
+        return 2
     return 1 if n_viol else 0
 
 
